@@ -44,12 +44,22 @@ def structures():
     S.append(("bnode as predicate-free list", [("b0", "first", '"1"'), ("b0", "rest", "b1"), ("b1", "first", '"2"'), ("b1", "rest", ":nil")]))
     S.append(("two lists same content", [("b0", "first", '"1"'), ("b0", "rest", ":nil"), ("b1", "first", '"1"'), ("b1", "rest", ":nil"),
                                          (":s", p, "b0"), (":s", p, "b1")]))
+    # terms with the SAME TEXT but a different kind / language / datatype, next to symmetric blank-node structures, in
+    # a single-blank-node graph, and behind a 2-cycle that an earlier tag has already separated
+    variants = [":a", "lit::a", '"0"', '"0"^^int', '"x"@en', '"x"@fr', '"x"^^tok']
+    k33 = [(f"b{i}", p, f"b{3 + j}") for i in range(3) for j in range(3)]
+    for v in variants:
+        S.append((f"K3,3 + ground triple with {v}", k33 + [(":s", q, v)]))
+    for v in variants:
+        S.append((f"single blank node with {v}", [("b0", q, v)]))
+    for v in variants[2:]:
+        S.append((f"tagged 2-cycle with {v}", [("b0", p, "b1"), ("b1", p, "b0"), ("b0", q, '"t"'), ("b1", q, v)]))
     return S
 
 
-def build(triples, relabel=None, order=None):
+def build(triples, relabel=None, order=None, identifier=None):
     from rdflib import Graph, BNode, Literal
-    g = Graph()
+    g = Graph(identifier=identifier) if identifier is not None else Graph()
     ts = list(triples)
     if order is not None:
         order.shuffle(ts)
@@ -61,6 +71,16 @@ def build(triples, relabel=None, order=None):
             return names.setdefault(key, BNode())
         if x.startswith(":"):
             return P(x[1:])
+        if x.startswith("lit::"):
+            return Literal(str(P(x[5:])))          # a plain literal with the same text as the IRI :name
+        if x.endswith('"@en') or x.endswith('"@fr'):
+            return Literal(x[1:-4], lang=x[-2:])
+        if x.endswith('"^^int'):
+            from rdflib import XSD
+            return Literal(x[1:-6], datatype=XSD.integer)
+        if x.endswith('"^^tok'):
+            from rdflib import XSD
+            return Literal(x[1:-6], datatype=XSD.token)
         return Literal(x.strip('"'))
     for s, p, o in ts:
         g.add((node(s), P(p), node(o)))
@@ -121,6 +141,15 @@ class Isomorphism(Suite):
             return f"graph_diff-partition: both+first / both+second not isomorphic to the inputs for {n1!r}, {n2!r}"
         if exp and (len(first) or len(second)):
             return f"graph_diff-isomorphic-inputs: isomorphic inputs {n1!r}, {n2!r} have a non-empty difference"
+        # two Graph objects that carry the SAME identifier (two revisions of one named graph, in separate stores)
+        from rdflib import URIRef
+        h1, h2 = build(t1, identifier=URIRef("urn:x:same")), build(t2, identifier=URIRef("urn:x:same"))
+        both, first, second = graph_diff(h1, h2)
+        if set(first) & set(second) or not isomorphic(both + first, h1) or not isomorphic(both + second, h2):
+            return (f"graph_diff-partition: two graphs with one identifier: both+first / both+second not isomorphic to the "
+                    f"inputs for {n1!r}, {n2!r}")
+        if isomorphic(h1, h2) != exp:
+            return f"isomorphic: two graphs with one identifier: isomorphic({n1!r}, {n2!r}) is {not exp}"
         if case["i"] == case["j"]:
             rnd = random.Random(case["i"])
             bs = sorted({x for s, _, o in t1 for x in (s, o) if x.startswith("b") and x[1:].isdigit()})
